@@ -773,7 +773,7 @@ fn main() {
   );
 
   // case files
-  let shard = 40usize;
+  let shard = 16usize;
   let mut files = Vec::new();
   for (k, chunk) in rendered.chunks(shard).enumerate() {
     let name = format!("cases_{k}.v");
